@@ -48,6 +48,18 @@ def scenarios(quick):
                             # a standalone AcquirePermit(ctx) waiting behind the executions, cancelled or served
                             out.append(scenario(st, fns, base + [env("BhAcquire", 1, x=7, id="b"), env("BhAcqCancel", 2, x=7), env("BhRelease", 9, id="b")] if False else
                                                 base + [env("BhAcquire", 1, x=7, id="b"), env("BhAcqCancel", 2, x=7)]))
+    # a NEGATIVE max wait time (a remaining budget that went below zero): a full bulkhead refuses at once, a free one admits
+    for m in (1, 2):
+        fns = [[fn(2, "R1", None, True)] * 3] * 3
+        ALWAYS.append(scenario([bh("b", m, wait=-1)], fns, [start(1, 0), start(2, 0), start(3, 1, asyn=True)]))
+        ALWAYS.append(scenario([retry(1, dly=1), bh("b", m, wait=-1)], fns, [env("BhTake", 0, id="b")] * m + [start(1, 0), start(2, 1), env("BhRelease", 2, id="b")]))
+    # standalone AcquirePermit(ctx): the permit comes back on the very instant the waiter's context is cancelled (both orders):
+    # what the call reports must be what happened to the permit (probed at quiescence and by an execution started afterwards)
+    for order in (("BhRelease", "BhAcqCancel"), ("BhAcqCancel", "BhRelease")):
+        for at in (1, 3):
+            evs = [env("BhTake", 0, id="b"), env("BhAcquire", 1, x=7, id="b")]
+            evs += [env(w, at, x=7) if w == "BhAcqCancel" else env(w, at, id="b") for w in order]
+            ALWAYS.append(scenario([bh("b", 1)], [[fn(1, "R1", None, True)] * 2], evs + [start(1, 5)]))
     for st in ([bh("b", 1), bh("b", 1)], [bh("b", 2), bh("c", 1)], [bh("b", 2, wait=2), retry(1, dly=1), bh("c", 1)]):
         for starts in ((0, 0), (0, 1)):
             fns = [[fn(2, "R1", None, True)] * 3] * 2
